@@ -16,8 +16,8 @@ import (
 )
 
 type Notation struct {
-	Kind string   // skip | map | conv | literal | other
-	Dst  string   // destination path/pattern the notation names
+	Kind string // skip | map | conv | literal | other
+	Dst  string // destination path/pattern the notation names
 	Args []string
 }
 
